@@ -203,6 +203,82 @@ class Ctx:
         raise Violation(d)
 
 
+class ConcreteCtx:
+    """Drop-in for Ctx with every input pinned to a concrete value: runs a harness function on the PLAIN package (no import hook,
+    no proxies) so that a candidate found symbolically is confirmed - or not - by an ordinary execution.  add() aborts the
+    path if an assumption is false for these inputs; prove()/fail() raise Violation as Ctx does."""
+
+    def __init__(self, inputs):
+        self.given = dict(inputs)
+        self.inputs, self.info, self.pc = {}, {}, []
+        self.obligations = self.discharged = self.nqueries = 0
+        self.notes = set()
+        self.concrete = True
+
+    def int(self, name, lo=None, hi=None):
+        v = int(self.given.get(name, lo if lo is not None else 0))
+        if (lo is not None and v < lo) or (hi is not None and v > hi):
+            raise PathAbort()
+        self.inputs[name] = v
+        return v
+
+    def choice(self, name, n):
+        if n == 1:
+            return 0
+        return self.int(name, 0, n - 1)
+
+    def _truth(self, c):
+        if isinstance(c, SymBool):
+            c = c.e
+        if isinstance(c, bool):
+            return c
+        return z3.is_true(z3.simplify(c))
+
+    def add(self, c):
+        if not self._truth(c):
+            raise PathAbort()
+
+    def check(self, extra=None):
+        return True if extra is None else self._truth(extra)
+
+    def note(self, bucket):
+        self.notes.add(bucket)
+
+    def get_model(self):
+        return None
+
+    def model_inputs(self, model=None):
+        return dict(self.inputs)
+
+    def prove(self, prop, describe=None, what=''):
+        self.obligations += 1
+        if self._truth(prop):
+            self.discharged += 1
+            return
+        d = dict(what=what, inputs=dict(self.inputs))
+        if describe is not None and not callable(describe):
+            d.update(describe)
+        raise Violation(d)
+
+    def fail(self, what, **kw):
+        self.obligations += 1
+        d = dict(what=what, inputs=dict(self.inputs))
+        d.update(kw)
+        raise Violation(d)
+
+
+def run_concrete(fn, inputs):
+    """Runs harness fn on pinned inputs; returns None (holds / assumptions not met) or the violation dict."""
+    ctx = ConcreteCtx(inputs)
+    try:
+        fn(ctx)
+    except PathAbort:
+        return None
+    except Violation as v:
+        return v.args[0]
+    return None
+
+
 def _lift(x):
     if isinstance(x, SymInt):
         return x.e
